@@ -163,6 +163,122 @@ func (o Op) String() string {
 
 func keyName(k int) string { return fmt.Sprintf("k%d", k) }
 
+// Key names are a dimension of a case (Names, one kind per key index; kind 0 is
+// the plain "k<i>"). The statement quantifies over any keys: the empty key, keys
+// that differ in case or blanks only, keys that start with the prefix of the
+// redis-backed cache (or are that prefix), keys made of the characters Redis
+// patterns give a meaning to, control and non-UTF-8 bytes, and long keys are
+// all just keys. The table holds distinct texts, none of the form k<digits>; a
+// case never uses one kind for two keys.
+var specialNames = func() []string {
+	long := func(n int, last byte) string {
+		b := []byte("k0/")
+		for len(b) < n-1 {
+			b = append(b, byte('a'+len(b)%26))
+		}
+		return string(append(b, last))
+	}
+	return []string{
+		1: "", 2: " ", 3: "k0 ", 4: " k0", 5: "K0", 6: "k 0", 7: "k1 ", 8: "K1",
+		9: rdsPrefix, 10: rdsPrefix + "k0", 11: rdsPrefix + "k1", 12: rdsPrefix + rdsPrefix + "k0", 13: rdsPrefix + "K0", 14: rdsPrefix + "*",
+		15: "k0:x", 16: ":", 17: "*", 18: "k*", 19: "k?", 20: "k[0]", 21: "[k]0", 22: "\\k0", 23: "k0\\",
+		24: "\x00", 25: "k0\x00", 26: "\xff\xfe", 27: "k\n0", 28: "k0\r\n", 29: "k\u00e9", 30: "c0", 31: "c05",
+		32: long(200, 'x'), 33: long(200, 'y'), 34: long(1024, 'x'), 35: long(5000, 'x'), 36: long(5000, 'y'),
+	}
+}()
+
+func init() {
+	// the table must hold distinct names, none of them a plain one
+	seen := map[string]bool{}
+	for kind := 1; kind < len(specialNames); kind++ {
+		s := specialNames[kind]
+		plain := len(s) > 1 && s[0] == 'k' && strings.Trim(s[1:], "0123456789") == ""
+		if seen[s] || plain {
+			panic(fmt.Sprintf("c05ttl: special key name %d (%q) is not usable", kind, s))
+		}
+		seen[s] = true
+	}
+}
+
+// prefixFamily: the kinds that collide with another key of the case once a
+// back-end confuses "prefix + key" with "key".
+var prefixFamily = []int{1, 9, 10, 10, 11, 12, 13}
+
+// namer maps key indices to key names.
+type namer struct{ names []string }
+
+// newNamer returns nil for an unusable Names list (unknown kind, or one kind twice).
+func newNamer(kinds []int, keys int) *namer {
+	n := &namer{names: make([]string, keys)}
+	seen := map[int]bool{}
+	for k := range n.names {
+		n.names[k] = keyName(k)
+		if k >= len(kinds) || kinds[k] == 0 {
+			continue
+		}
+		kind := kinds[k]
+		if kind < 1 || kind >= len(specialNames) || seen[kind] {
+			return nil
+		}
+		seen[kind] = true
+		n.names[k] = specialNames[kind]
+	}
+	return n
+}
+
+func (n *namer) name(k int) string {
+	if n == nil || k < 0 || k >= len(n.names) {
+		return keyName(k)
+	}
+	return n.names[k]
+}
+
+// describe lists the keys that do not carry their plain name (for messages).
+func (n *namer) describe() string {
+	if n == nil {
+		return ""
+	}
+	var out []string
+	for k, s := range n.names {
+		if s != keyName(k) {
+			out = append(out, fmt.Sprintf("k%d=%s", k, short(s)))
+		}
+	}
+	if len(out) == 0 {
+		return ""
+	}
+	return " key names: " + strings.Join(out, ", ") + ";"
+}
+
+// genNames draws the key names of a case: plain ones in three cases of four,
+// otherwise each key keeps its plain name or takes a special one (a third of
+// those from the prefix family), no kind twice.
+func genNames(t *rapid.T, keys int) []int {
+	if rapid.IntRange(0, 3).Draw(t, "names") != 0 {
+		return nil
+	}
+	out := make([]int, keys)
+	used := map[int]bool{}
+	any := false
+	for k := range out {
+		if rapid.IntRange(0, 1).Draw(t, "special") == 0 {
+			continue
+		}
+		kind := rapid.IntRange(1, len(specialNames)-1).Draw(t, "namekind")
+		if rapid.IntRange(0, 2).Draw(t, "family") == 0 {
+			kind = rapid.SampledFrom(prefixFamily).Draw(t, "familykind")
+		}
+		if used[kind] {
+			continue
+		}
+		used[kind], out[k], any = true, kind, true
+	}
+	if !any {
+		return nil
+	}
+	return out
+}
+
 func setOpts(o Op) []cache.SetOptFn {
 	var fns []cache.SetOptFn
 	if o.HasTTL {
@@ -241,6 +357,7 @@ type model struct {
 	res   *vkit.Result
 	nt    bool
 	log   []string
+	names string // the keys that do not carry their plain name (messages only)
 }
 
 // kset is a set of key indices < maxModelKeys.
@@ -302,6 +419,9 @@ func (m *model) expect(k int) (int, string) {
 }
 
 func (m *model) logf(format string, a ...any) {
+	if len(m.log) >= 240 { // long histories: the message shows the last 60 entries
+		m.log = append(m.log[:0], m.log[len(m.log)-120:]...)
+	}
 	m.log = append(m.log, fmt.Sprintf("[%d] ", m.step)+fmt.Sprintf(format, a...))
 }
 
@@ -310,7 +430,7 @@ func (m *model) history() string {
 	if len(l) > 60 {
 		l = l[len(l)-60:]
 	}
-	return fmt.Sprintf("size=%d default-ttl=%d t0=%d history: %s", m.size, m.ttl, m.t0, strings.Join(l, "; "))
+	return fmt.Sprintf("size=%d default-ttl=%d t0=%d;%s history: %s", m.size, m.ttl, m.t0, m.names, strings.Join(l, "; "))
 }
 
 func (m *model) failf(site, format string, a ...any) {
@@ -655,6 +775,58 @@ type MemCase struct {
 	Keys  int   `json:"keys"`            // keys k0..k<Keys-1>
 	Start int64 `json:"start,omitempty"` // first reading of the virtual clock (0 = 1_000_000)
 	Ops   []Op  `json:"ops"`
+	// Names: the kind of name each key carries (see specialNames; absent / 0 = "k<i>")
+	Names []int `json:"names,omitempty"`
+	// Decoy: other cache instances exist next to the one under test (see Decoy)
+	Decoy *Decoy `json:"decoy,omitempty"`
+}
+
+// Decoy describes bystander instances with a size and a default ttl of their
+// own: one is built before the cache under test and one after it; with Use,
+// every Set / Get / Remove of the history is first applied to the two of them
+// as well (same key and options, a value of their own). An instance must not
+// notice that others exist.
+type Decoy struct {
+	Size int   `json:"size"`
+	TTL  int64 `json:"ttl"`
+	Use  bool  `json:"use,omitempty"`
+}
+
+func genDecoy(t *rapid.T, ttls []int64) *Decoy {
+	if rapid.IntRange(0, 4).Draw(t, "decoy") != 0 {
+		return nil
+	}
+	return &Decoy{
+		Size: rapid.SampledFrom([]int{0, 1, 2, 7, 1000}).Draw(t, "decoy_size"),
+		TTL:  rapid.SampledFrom(ttls).Draw(t, "decoy_ttl"),
+		Use:  rapid.Bool().Draw(t, "decoy_use"),
+	}
+}
+
+// decoys are the bystander instances of a case.
+type decoys struct {
+	ctx context.Context
+	tcs []cache.TTLCache
+	use bool
+}
+
+func (d *decoys) add(tc cache.TTLCache) { d.tcs = append(d.tcs, tc) }
+
+// mirror applies a keyed operation to the bystanders.
+func (d *decoys) mirror(o Op, key string) {
+	if d == nil || !d.use {
+		return
+	}
+	for _, tc := range d.tcs {
+		switch o.Kind {
+		case "set":
+			_ = tc.Set(d.ctx, key, []byte("decoy"), setOpts(o)...)
+		case "get":
+			_, _ = tc.Get(d.ctx, key, getOpts(o)...)
+		case "remove":
+			_ = tc.Remove(d.ctx, key)
+		}
+	}
 }
 
 func (c MemCase) start() int64 {
@@ -908,6 +1080,8 @@ func GenMem(t *rapid.T) MemCase {
 		Start: rapid.SampledFrom(clockStarts).Draw(t, "start"),
 	}
 	c.Ops = resolve(genProtos(t, genCfg{keys: c.Keys}), c.start(), c.TTL)
+	c.Names = genNames(t, c.Keys)
+	c.Decoy = genDecoy(t, []int64{-1, 0, 1, 2, 7, 100})
 	return c
 }
 
@@ -994,7 +1168,11 @@ type memRun struct {
 	advance func(dt int64)
 	vr      *valuer
 	held    []heldVal
+	names   *namer  // nil: plain names
+	decoys  *decoys // nil: none
 }
+
+func (r *memRun) name(k int) string { return r.names.name(k) }
 
 func (r *memRun) checkHeld() {
 	if r.res.Fail != nil {
@@ -1038,15 +1216,18 @@ func (r *memRun) step(i int, o Op) {
 		case vkShared:
 			res.Class("shared-slice")
 		}
-		err := r.tc.Set(r.ctx, keyName(o.Key), b, setOpts(o)...)
+		r.decoys.mirror(o, r.name(o.Key))
+		err := r.tc.Set(r.ctx, r.name(o.Key), b, setOpts(o)...)
 		m.set(o, text, err)
 		r.checkHeld()
 	case "get":
-		v, err := r.tc.Get(r.ctx, keyName(o.Key), getOpts(o)...)
+		r.decoys.mirror(o, r.name(o.Key))
+		v, err := r.tc.Get(r.ctx, r.name(o.Key), getOpts(o)...)
 		m.get(o, v, err, false)
 		r.hold(i, o, v, err)
 	case "remove":
-		m.remove(o, r.tc.Remove(r.ctx, keyName(o.Key)))
+		r.decoys.mirror(o, r.name(o.Key))
+		m.remove(o, r.tc.Remove(r.ctx, r.name(o.Key)))
 	case "clear":
 		r.tc.Clear(r.ctx)
 		m.clear()
@@ -1078,7 +1259,7 @@ func (r *memRun) probe(base int, keys []int) {
 	for j, k := range keys {
 		r.m.step = base + j
 		o := Op{Kind: "get", Key: k}
-		v, err := r.tc.Get(r.ctx, keyName(k))
+		v, err := r.tc.Get(r.ctx, r.name(k))
 		if err == nil {
 			hits++
 			hitKeys = append(hitKeys, keyName(k))
@@ -1109,9 +1290,33 @@ func ExecMem(c MemCase) *vkit.Result {
 	} else if clk > 1<<30 {
 		res.Class("clock-present-day")
 	}
+	names := newNamer(c.Names, c.Keys)
+	if names == nil || len(c.Names) > c.Keys {
+		res.Skip("malformed-key-names")
+		return res
+	}
+	if c.Decoy != nil && (c.Decoy.Size < 0 || c.Decoy.Size > 1<<20) {
+		res.Skip("malformed-case")
+		return res
+	}
 	m := newModel(c.Size, c.TTL, c.Keys, len(c.Ops)+c.Keys, clk, res)
-	r := &memRun{ctx: context.Background(), tc: cache.NewTTLMemCache(c.Size, c.TTL), m: m, res: res, keys: c.Keys,
-		now: func() int64 { return clk }, advance: func(dt int64) { clk += dt }, vr: newValuer()}
+	m.names = names.describe()
+	if m.names != "" {
+		res.Class("special-key-names")
+	}
+	ctx := context.Background()
+	var ds *decoys
+	if c.Decoy != nil {
+		ds = &decoys{ctx: ctx, use: c.Decoy.Use}
+		ds.add(cache.NewTTLMemCache(c.Decoy.Size, c.Decoy.TTL))
+		res.Class("decoy-instances")
+	}
+	tc := cache.NewTTLMemCache(c.Size, c.TTL)
+	if c.Decoy != nil {
+		ds.add(cache.NewTTLMemCache(c.Decoy.Size+1, c.Decoy.TTL))
+	}
+	r := &memRun{ctx: ctx, tc: tc, m: m, res: res, keys: c.Keys,
+		now: func() int64 { return clk }, advance: func(dt int64) { clk += dt }, vr: newValuer(), names: names, decoys: ds}
 	for i, o := range c.Ops {
 		r.step(i, o)
 		if res.Fail != nil {
@@ -1132,7 +1337,7 @@ func ExecMem(c MemCase) *vkit.Result {
 	return res
 }
 
-const ruleMem = "rapid: size 0..5 (0,1,2 weighted), default ttl in {-1,0,1,3,10; rarely 30 days, MaxInt64}, 1..5 keys, the virtual clock (cache.VerifSetNow) starting at 1e6 (5/12), at a present-day reading, or 3 / 1 / 0 seconds before 2^31 or 2^32 (or just past it), 1..40 independently drawn elements (rapid.SliceOfN, so shrinking can delete any of them), resolved by a deterministic fold: Set(36%: WithTTL half the time - in {-1,0,1,2,5}, 1/6 of them a long one: a day, a day+1, a week, a year, 20 years, 2^31, 2^32, 2^40, MaxInt64/1e9 -1/+0/+1, MaxInt64/4, 2^62, MaxInt64/2, MaxInt64-10, MaxInt64-1, MaxInt64 - must-not-exist 1/4, keep-ttl 1/4, any combination; the value a fresh unique text, or (5/16) empty, nil, 8..1000 bytes longer, or the one slice of the case passed again under another key), Get(30%: plain / remove-after-get / update-ttl(0|1|2|5|-1|a long one) / both), Advance(22%: 0, 1, 0..6, exactly onto / one past / one before the nearest pending deadline - however far away it is -, 7..12, 100, a day, 2^31, 2^32), Remove(6%), Clear(2%), and 4% scripted shapes (Set ttl, let it elapse, Set must-not-exist|keep-ttl, Get / Set, update-ttl, pass the old deadline, Get / Set, keep-ttl, pass the deadline, Get / Set a long ttl, read after a day or half of it, one second before its end, after it / one slice under two keys, overwrite one with a value of the same length, read both / Set, Get, Set, Get of one key). Oracle: three-valued model (must-hit / must-miss / either, the observed answer adopted - also for the rest of the same clock reading) with a deadline interval per key (a ttl that ends beyond MaxInt64 never elapses) and the recency window of the statement; a hit returns the latest value (empty and nil values are hits with an empty value); every non-empty value a Get returned still reads the same after each later Set and at the end; must-not-exist fails iff live and succeeds iff absent/expired; final probe of all keys, #hits <= size, and no time point with more than size keys proven retrievable. Non-trivial: a Get / must-not-exist / keep-ttl whose outcome is fixed by an elapsed ttl, or a key found gone after leaving the recency window (eviction), or any read at size 0 after a Set; distinct = distinct case JSON"
+const ruleMem = "rapid: size 0..5 (0,1,2 weighted), default ttl in {-1,0,1,3,10; rarely 30 days, MaxInt64}, 1..5 keys - in a quarter of the cases about half of them under a special name instead of k<i> (the empty key, blanks, names that differ from another key in case or a blank only, the redis prefix itself and prefix+k0 / prefix+k1, ':' '*' '?' '[' '\\', NUL / newline / non-UTF-8 bytes, 200 / 1024 / 5000 bytes long and equal up to the last byte) -, in a fifth of the cases bystander caches with another size and default ttl built before and after the cache under test (half of the time every keyed call is applied to them first), the virtual clock (cache.VerifSetNow) starting at 1e6 (5/12), at a present-day reading, or 3 / 1 / 0 seconds before 2^31 or 2^32 (or just past it), 1..40 independently drawn elements (rapid.SliceOfN, so shrinking can delete any of them), resolved by a deterministic fold: Set(36%: WithTTL half the time - in {-1,0,1,2,5}, 1/6 of them a long one: a day, a day+1, a week, a year, 20 years, 2^31, 2^32, 2^40, MaxInt64/1e9 -1/+0/+1, MaxInt64/4, 2^62, MaxInt64/2, MaxInt64-10, MaxInt64-1, MaxInt64 - must-not-exist 1/4, keep-ttl 1/4, any combination; the value a fresh unique text, or (5/16) empty, nil, 8..1000 bytes longer, or the one slice of the case passed again under another key), Get(30%: plain / remove-after-get / update-ttl(0|1|2|5|-1|a long one) / both), Advance(22%: 0, 1, 0..6, exactly onto / one past / one before the nearest pending deadline - however far away it is -, 7..12, 100, a day, 2^31, 2^32), Remove(6%), Clear(2%), and 4% scripted shapes (Set ttl, let it elapse, Set must-not-exist|keep-ttl, Get / Set, update-ttl, pass the old deadline, Get / Set, keep-ttl, pass the deadline, Get / Set a long ttl, read after a day or half of it, one second before its end, after it / one slice under two keys, overwrite one with a value of the same length, read both / Set, Get, Set, Get of one key). Oracle: three-valued model (must-hit / must-miss / either, the observed answer adopted - also for the rest of the same clock reading) with a deadline interval per key (a ttl that ends beyond MaxInt64 never elapses) and the recency window of the statement; a hit returns the latest value (empty and nil values are hits with an empty value); every non-empty value a Get returned still reads the same after each later Set and at the end; must-not-exist fails iff live and succeeds iff absent/expired; final probe of all keys, #hits <= size, and no time point with more than size keys proven retrievable. Non-trivial: a Get / must-not-exist / keep-ttl whose outcome is fixed by an elapsed ttl, or a key found gone after leaving the recency window (eviction), or any read at size 0 after a Set; distinct = distinct case JSON"
 
 var PartMem = &vkit.Part[MemCase]{
 	Property: Property, Name: "mem",
